@@ -177,7 +177,7 @@ FLOWS += [
     Flow("k_flow_ProtectionDescriptor_pack", "_blob.py", "ProtectionDescriptor.pack", props=_PP),
     Flow("k_flow_ProtectionDescriptor_parse", "_blob.py", "ProtectionDescriptor.parse", props=_PP),
     Flow("k_flow_ProtectionDescriptor_get_target_sd", "_blob.py", "ProtectionDescriptor.get_target_sd", props=("C05",)),
-    Flow("k_flow_SIDDescriptor_get_target_sd", "_blob.py", "SIDDescriptor.get_target_sd", props=("C05",)),
+    Flow("k_flow_SIDDescriptor_get_target_sd", "_blob.py", "SIDDescriptor.get_target_sd", props=("C05", "C08")),
     # a callee advances / appends to an ARGUMENT (reader, writer): run by Prelude/PyAstMut.v (mw_call_mut / mw_meth_mut)
     Flow("k_flow_EncryptedContentInfo_unpack", "_pkcs7.py", "EncryptedContentInfo.unpack", props=_PU),
     Flow("k_flow_KEKRecipientInfo_unpack", "_pkcs7.py", "KEKRecipientInfo.unpack", props=_PU),
